@@ -4,7 +4,7 @@ from pyvc.contract import *
 
 SEGMENTS = [
     ["echo", "hi"], ["ls", "-l", "/tmp"], ["echo", "'a b'", "$HOME"], ["echo", "@(1+1)"], ["echo", "$(echo x)"], ["cat", "<", "/dev/null"],
-    ["echo", "hi", ">", "/dev/null"], ["echo", "a", "|", "cat"], ["sleep", "0", "&"], ["grep", "-r", "foo", "."], ["tar", "-x", "-v", "-f", "file.tar", "dir"],
+    ["echo", "hi", ">", "/dev/null"], ["echo", "@(str(1))"], ["echo", "$(echo @(str(2)))", "x"], ["echo", "a", "|", "cat"], ["sleep", "0", "&"], ["grep", "-r", "foo", "."], ["tar", "-x", "-v", "-f", "file.tar", "dir"],
 ]
 CONTEXTS = {  # name -> (prefix lines, indent of the probe, suffix lines)
     "top level": ([], 0, []),
